@@ -290,17 +290,29 @@ Definition plain (p : pkg) : bool := forallb (plain_spec p) (pspecs p).
 
 (** * Whole programs: packages, imports, init functions, main *)
 
+(** Function-like declarations around the special names [init] and [main], in source order (file
+    order, then position; a function literal comes after the declaration that contains it).
+    [sd_marks] = what is printed if the declaration's body is run once (its own mark, then the
+    marks of the look-alikes it calls). *)
+Inductive dkind :=
+| DFunc      (* func name() { ... }                       a function declaration without receiver *)
+| DMethod    (* func (r T) name() { ... } / (r *T)        a method                                  *)
+| DLit       (* name := func() { ... }                    a function literal bound to a local      *)
+| DVar.      (* var name = func() { ... }                 a package-level variable of func type    *)
+
+Inductive dname := NInit | NMain | NOther.   (* init, main, anything else (Init, init2, ...) *)
+
+Record sdecl := mksd { sd_kind : dkind; sd_name : dname; sd_marks : list id }.
+
 Record package := mkpk {
   pk_id : id;                (* numbers ordered like the import paths *)
   pk_imports : list id;      (* in the order the import declarations are met: file order, then source order *)
   pk_body : pkg;
-  pk_inits : list id;        (* marks printed by the init functions, in source order *)
-  pk_main : bool             (* package main with a func main *)
+  pk_decls : list sdecl;     (* init functions, main, and their look-alikes, in source order *)
+  pk_main : bool             (* the package clause is [package main] *)
 }.
 
 Record program := mkprog { packages : list package; entry : id }.
-
-Definition main_log : id := 0%N.
 
 Fixpoint find_pk (ps : list package) (p : id) : option package :=
   match ps with
@@ -308,11 +320,65 @@ Fixpoint find_pk (ps : list package) (p : id) : option package :=
   | pk :: r => if N.eqb (pk_id pk) p then Some pk else find_pk r p
   end.
 
+(** ** Which functions run by themselves
+
+    G: "all init functions [the functions declared [func init()], without receiver] in the order
+    they appear in the source"; then, for package main only, the function main. *)
+Definition g_is_init (d : sdecl) : bool :=
+  match sd_kind d, sd_name d with DFunc, NInit => true | _, _ => false end.
+
+Definition g_is_main (d : sdecl) : bool :=
+  match sd_kind d, sd_name d with DFunc, NMain => true | _, _ => false end.
+
+Definition g_special (is_main : bool) (ds : list sdecl) : list id :=
+  flat_map sd_marks (filter g_is_init ds)
+  ++ (if is_main then match find g_is_main ds with Some m => sd_marks m | None => [] end else []).
+
+(** Y.  What [cfg] sees of a funcDecl / funcLit node: [n.child[1].ident] (empty for a literal) and
+    the receiver field list [n.child[0]]; a package variable is not such a node.
+    [[ if n.child[1].ident == "init" && len(n.child[0].child) == 0 { initNodes = append(initNodes, n) } ]] *)
+Definition y_fn_ident (d : sdecl) : option dname :=
+  match sd_kind d with
+  | DFunc | DMethod => Some (sd_name d)
+  | DLit => Some NOther
+  | DVar => None
+  end.
+
+Definition y_recv_len (d : sdecl) : nat := match sd_kind d with DMethod => 1 | _ => 0 end.
+
+Definition y_is_init (d : sdecl) : bool :=
+  match y_fn_ident d with
+  | Some NInit => (y_recv_len d =? 0)%nat
+  | _ => false
+  end.
+
+(** [gs.sym[mainID]]: the package-scope symbol named main, declared by a function declaration
+    without receiver (gta) or by a package variable; methods and locals are not in that scope.
+    [[ if m := gs.sym[mainID]; pkgName == mainID && m != nil { initNodes = append(initNodes, m.node) } ]]
+    (program.go CompileAST, and src.go importSrc with [&& skipTest]) *)
+Definition y_is_main_sym (d : sdecl) : bool :=
+  match sd_kind d, sd_name d with DFunc, NMain | DVar, NMain => true | _, _ => false end.
+
+Definition y_special (is_main : bool) (ds : list sdecl) : list id :=
+  flat_map sd_marks (filter y_is_init ds)
+  ++ match find y_is_main_sym ds with
+     | Some m => if is_main then sd_marks m else []
+     | None => []
+     end.
+
+(** Go rejects a package-level variable named main in package main ("cannot declare main - must be
+    func"): the declaration lists of valid programs satisfy [decls_wf]. *)
+Definition decls_wf (is_main : bool) (ds : list sdecl) : bool :=
+  if is_main
+  then forallb (fun d => negb (match sd_kind d, sd_name d with DVar, NMain => true | _, _ => false end)) ds
+  else true.
+
 (** What one package prints while it is initialised (Execute / the tail of importSrc): globals,
     init functions in source order, main. *)
-Definition pk_trace (order : pkg -> option (list id)) (pk : package) : option (list id) :=
+Definition pk_trace (order : pkg -> option (list id)) (special : bool -> list sdecl -> list id)
+           (pk : package) : option (list id) :=
   match order (pk_body pk) with
-  | Some l => Some (l ++ pk_inits pk ++ (if pk_main pk then [main_log] else []))
+  | Some l => Some (l ++ special (pk_main pk) (pk_decls pk))
   | None => None
   end.
 
@@ -323,8 +389,9 @@ Fixpoint concat_opt (l : list (option (list id))) : option (list id) :=
   | Some x :: r => match concat_opt r with Some y => Some (x ++ y) | None => None end
   end.
 
-Definition trace_along (order : pkg -> option (list id)) (ps : list package) (ids : list id) : option (list id) :=
-  concat_opt (map (fun p => match find_pk ps p with Some pk => pk_trace order pk | None => None end) ids).
+Definition trace_along (order : pkg -> option (list id)) (special : bool -> list sdecl -> list id)
+           (ps : list package) (ids : list id) : option (list id) :=
+  concat_opt (map (fun p => match find_pk ps p with Some pk => pk_trace order special pk | None => None end) ids).
 
 (** ** Y: importSrc.  [if interp.srcPkg[importPath] != nil { return }]; gta of every file meets the
     import declarations in order and loads each imported package (recursively) before going on;
@@ -344,7 +411,7 @@ Definition y_pkg_order (g : program) : list id :=
   y_load (S (length (packages g))) (packages g) [] (entry g).
 
 Definition y_trace (g : program) : option (list id) :=
-  trace_along y_order (packages g) (y_pkg_order g).
+  trace_along y_order y_special (packages g) (y_pkg_order g).
 
 (** ** G: "Given the list of all packages, sorted by import path, in each step the first
     uninitialized package in the list for which all imported packages (if any) are already
@@ -363,7 +430,7 @@ Definition g_pkg_order (g : program) : list id :=
   map nid (fst (g_sched (map pk_node (sort_pks (packages g))))).
 
 Definition g_trace (g : program) : option (list id) :=
-  trace_along g_order (packages g) (g_pkg_order g).
+  trace_along g_order g_special (packages g) (g_pkg_order g).
 
 (** Side condition for the package level: the packages are listed in import-path order, every
     package after the packages it imports, and yaegi's depth-first loading order is that very list. *)
@@ -395,4 +462,5 @@ Fixpoint topo_listed (seen : list id) (ps : list package) : bool :=
 Definition pkg_side (p : pkg) : bool := decl_sorted p || plain p.
 
 Definition program_side (g : program) : bool :=
-  pkgs_in_path_order g && forallb (fun pk => pkg_side (pk_body pk)) (packages g).
+  pkgs_in_path_order g
+  && forallb (fun pk => pkg_side (pk_body pk) && decls_wf (pk_main pk) (pk_decls pk)) (packages g).
